@@ -1763,7 +1763,9 @@ func (e *Engine) deleteSeriesRange(seriesKeys [][]byte, min, max int64) error {
 			// If there are multiple fields, they will have the same prefix.  If any field
 			// has values, then we can't delete it from the index.
 			for i < len(deleteKeys) && bytes.HasPrefix(deleteKeys[i], k) {
-				if e.Cache.Values(deleteKeys[i]).Len() > 0 {
+				// Keys of a longer series key sharing this prefix (e.g. an extra tag)
+				// sort in here as well; only this series' own fields count.
+				if sk, _ := SeriesAndFieldFromCompositeKey(deleteKeys[i]); bytes.Equal(sk, k) && e.Cache.Values(deleteKeys[i]).Len() > 0 {
 					hasCacheValues = true
 					break
 				}
